@@ -4,6 +4,7 @@
 // Every reachable state (index + value of each variant) is expanded with every operation of the alphabet; after each
 // operation the real objects are compared with an (index, value) reference model and the lifetime registry is read.
 #include <deque>
+#include <functional>
 #include <map>
 #include <set>
 
@@ -373,6 +374,49 @@ int main(int argc, char** argv) {
   R.counters["states"] = seen.size();
   R.distinct_direct = seen.size();
   R.counters["max_depth"] = maxd;
+  // Second pass without state merging: the model state does not see implementation-only state (a stale index, a
+  // value left in dead storage), so two histories that reach the same model state may still differ underneath.
+  // Every operation sequence of length <= 3 from the initial state is executed on fresh objects and compared after
+  // its last operation (prefixes are sequences of their own).
+  {
+    const size_t depth = 3;
+    // the 3-variant alphabet is large; sequences are restricted to operations on a and b plus the c operations that
+    // feed them (assignments to c), which keeps 3-step interactions between two variants exhaustive
+    std::vector<size_t> sub;
+    for (size_t i = 0; i < ops.size(); i++)
+      if (ops[i].x != 2 || ops[i].code == ASSIGN_A || ops[i].code == ASSIGN_B || ops[i].code == ASSIGN_EMPTY) sub.push_back(i);
+    std::vector<size_t> seq;
+    uint64_t nseq = 0;
+    std::function<void()> rec = [&]() {
+      if (!seq.empty()) {
+        life().reset();
+        Model m;
+        std::string why, hs;
+        {
+          World w;
+          for (size_t k = 0; k + 1 < seq.size(); k++) { real_step(w, ops[seq[k]]); model_step(m, ops[seq[k]]); }
+          std::string diag = real_step(w, ops[seq.back()]);
+          model_step(m, ops[seq.back()]);
+          why = diag.empty() ? compare(w, m) : diag;
+        }
+        if (why.empty() && (!life().live.empty() || life().ctors != life().dtors || !life().violation.empty()))
+          why = life().violation.empty() ? std::to_string(life().live.size()) + " elements still alive after all variants were destroyed" : life().violation;
+        nseq++;
+        if (!why.empty()) {
+          for (size_t k = 0; k < seq.size(); k++) hs += opname(ops[seq[k]]) + ";";
+          std::string cid = "C12|seq|" + hs;
+          if (R.want(cid)) R.viol(std::string("C12|sequence|") + kOpName[ops[seq.back()].code], cid, why, "{\"sequence\":" + jstr(hs) + "}");
+          return;  // longer sequences through a broken state add nothing
+        }
+      }
+      if (seq.size() == depth) return;
+      for (size_t i : sub) { seq.push_back(i); rec(); seq.pop_back(); }
+    };
+    if (R.only.empty() || R.only.compare(0, 8, "C12|seq|") == 0) rec();
+    R.counters["sequences_without_merging"] = nseq;
+    R.counters["transitions"] += nseq;
+    R.counters["evaluations"] += nseq;
+  }
   {
     int n = 0;
     for (auto& kv : seen) {
